@@ -28,11 +28,12 @@
   * `repr(e)` raises an Exception `x` that can be formatted with `%s` (`Beh.raisingBad`): the fallback text is printed,
     nothing escapes (before fix 591bc3e `repr(e)` was called unguarded and `x` escaped);
   * `repr(e)` raises an Exception `x` whose `str()` raises `y` (`Beh.raisingWorse`): the `%s` formatting sits inside
-    safe_repr's OWN except clause, `y` leaves `safe_repr`, `_computed` and with it `set_value` / `set_error` /
-    the computing read (`Exc.subRepr`; `subEscapes`).  The outcome is stored and everybody was notified by then.  This is
-    the code as it is (open finding `subscriber-repr-error-escapes`): the observer `spec` REJECTS the completer's answer with
-    the clause of that name, `C10_subscriber_repr_error_counterexample` exhibits it, `C10_spec_holds` excludes it by the
-    hypothesis `noWorseOps`.
+    safe_repr's OWN except clause, `y` leaves `safe_repr` (`safeReprRaises`).  Before fix 9f49616 `y` left `_computed` too
+    and with it `set_value` / `set_error` / the computing read (`Exc.subRepr`; finding `subscriber-repr-error-escapes`).
+    Since 9f49616 `_computed` calls safe_repr inside `try: ... except Exception: description = "<unprintable %s>" %
+    type(e).__name__`, so nothing escapes (`subEscapes = false`); the observer `spec` still REJECTS such an answer with the
+    clause `subscriber-repr-error-escapes` (a regression is a violation), `C10_subscriber_repr_error_repaired` shows the
+    history of the former finding accepted, and `C10_spec_holds` has no hypothesis about subscribers.
 -/
 namespace AsynqModel.Futures
 
@@ -196,9 +197,15 @@ def firstRaise : List Sub → List Sub → Option Bool
     | some b => some b
     | none => firstRaise (applyBeh live s) ss
 
-/-- `FutureBase._computed`: `except Exception as e: print(... % core_helpers.safe_repr(e))` - does an exception leave
-    `_computed`?  Exactly when `safe_repr` of the exception `safe_trigger` re-raises (the FIRST one of the round) raises. -/
-def subEscapes (subs : List Sub) : Bool := firstRaise subs subs == some true
+/-- does `core_helpers.safe_repr(e)` raise for the exception `e` that `safe_trigger` re-raises (the FIRST one of the round)?
+    A fact about the INPUT; the observer uses it to give a regression of 9f49616 its own clause name. -/
+def safeReprRaises (subs : List Sub) : Bool := firstRaise subs subs == some true
+
+/-- `FutureBase._computed` (futures.py:138-146): `except Exception as e: try: description = core_helpers.safe_repr(e)
+    except Exception: description = "<unprintable ...>"; print(...); traceback.print_exc()` - does an exception leave
+    `_computed`?  Since 9f49616: never (whether or not `safeReprRaises`).  The definition and its uses in `compute` /
+    `computedExc` stay as the (now dead) exception channel of the subscribers. -/
+def subEscapes (_subs : List Sub) : Bool := false
 
 /-- what the observer EXPECTS of a re-entrant `set_value` / `set_error` made from inside a notification: refused -/
 def expInner : Beh → Option Res
@@ -436,7 +443,7 @@ def computeOk (k : Kind) (w : Watch) (ob : Obs) (o : Outc) : Bool :=
   if k.isTask && w.done then ob.runs == w.runs && o == .val 0
   else ob.runs == w.runs + 1 && k.natural == some o
 
-/-- what the computing read of a future of kind `k` raises when the exception of a subscriber escapes from `_computed`
+/-- what the computing read of a future of kind `k` raised when the exception of a subscriber escaped from `_computed`
     (Future._compute turns it into FutureIsAlreadyComputed for a returning provider, see `compute`) -/
 def Kind.escRead : Kind → Exc
   | .lazyOk _ | .lazySelfSet _ _ => .alreadyComputed
@@ -451,14 +458,15 @@ def unsubStep (k : Kind) (w : Watch) (id : Nat) (r : Res) : Except String Watch 
 
 /-- an accepted `set_value` / `set_error` with outcome `o` on a future the observer knows uncomputed: nothing ran, the
     future holds `o`, every subscriber was notified, and the call RETURNED.  The one wrong answer that gets a name of its
-    own is the open finding the model mirrors: the tracked subscribers predict that `safe_repr` of the first exception
-    raised in the round raises (`subEscapes`) AND the call raised exactly that, everything else being right. -/
+    own is the repaired finding `subscriber-repr-error-escapes` (a regression of 9f49616): the tracked subscribers predict
+    that `safe_repr` of the first exception raised in the round raises (`safeReprRaises`) AND the call raised exactly that,
+    everything else being right. -/
 def setStep (w : Watch) (ob : Obs) (o : Outc) : Except String Watch :=
   if ob.runs != w.runs then .error "provider-once"
   else if ob.after != some o then .error "set"
   else if !notifiedAll w.subs ob.cbs o then .error "notify-once"
   else if ob.res == .unit then .ok { w with known := some o, subs := afterNotify w.subs, done := true }
-  else if subEscapes w.subs && ob.res == .raised .subRepr then .error "subscriber-repr-error-escapes"
+  else if safeReprRaises w.subs && ob.res == .raised .subRepr then .error "subscriber-repr-error-escapes"
   else .error "set"
 
 /-- a read (`value()`, call, `error()`) of a future the observer knows uncomputed -/
@@ -469,7 +477,7 @@ def readStep (k : Kind) (w : Watch) (ob : Obs) : Except String Watch :=
     else if !computeOk k w ob o then .error "compute-outcome"
     else if !notifiedAll w.subs ob.cbs o then .error "notify-once"
     else if freshReadOk k ob.op ob.res o then .ok { w with known := some o, subs := afterNotify w.subs, done := true }
-    else if subEscapes w.subs && ob.res == .raised k.escRead then .error "subscriber-repr-error-escapes"
+    else if safeReprRaises w.subs && ob.res == .raised k.escRead then .error "subscriber-repr-error-escapes"
     else .error "compute-read"
   | none =>
     -- only a future that has no computation (ConstFuture/ErrorFuture after reset_unsafe) may stay uncomputed
